@@ -171,6 +171,8 @@ def gen_case(rng, tier, index):
             bad = ANY if kind == "evo_any" else rng.choice(INVALID + INVALID + INVALID_MORE)
             members.insert(rng.randint(0, k - 1), bad)
         case = {"ep": ep, "dev": "evo", "tip": _container(rng, members, allow_set=False), "kind": kind}
+        if ep == "evo_wash" and rng.random() < 0.25:
+            case["oneshot"] = rng.choice(["iter", "gen"])  # `tips` of evo_wash may be any iterable
         if ep != "evo_wash":
             case["col"] = rng.randrange(12)
             if rng.random() < 0.75:
@@ -201,6 +203,9 @@ def gen_case(rng, tier, index):
         members.insert(rng.randint(0, k - 1), rng.choice(INVALID + INVALID + INVALID_MORE + [ANY, ANY, ANY]))
         tip = _container(rng, members)
     case = {"ep": ep, "dev": dev, "tip": tip, "n": rng.choice([1, 1, 2, 3]), "vol": _vol(rng), "kind": kind}
+    if isinstance(tip, list) and rng.random() < 0.15:
+        # the same members in another re-iterable container: the values of a dict, a deque, a plain user class with __iter__
+        case["wrap"] = rng.choice(["dict_values", "deque", "user_iterable", "dict_keys"])
     if rng.random() < 0.3:
         # the worklist is not fresh: an earlier record on the same object carries another explicit selection
         case["pre"] = {"ep": rng.choice(["aspirate_well", "aspirate_well", "dispense_well"]),
@@ -218,6 +223,34 @@ def gen_case(rng, tier, index):
 # ---------------------------------------------------------------------------------------------
 # execution + judgement
 # ---------------------------------------------------------------------------------------------
+class _UserIterable:
+    """A minimal user container: nothing but __iter__ (re-iterable)."""
+
+    def __init__(self, items):
+        self._items = list(items)
+
+    def __iter__(self):
+        return iter(self._items)
+
+
+def _wrap(members, how):
+    import collections
+
+    if how == "dict_values":
+        return {f"sample {i}": m for i, m in enumerate(members)}.values()
+    if how == "deque":
+        return collections.deque(members)
+    if how == "user_iterable":
+        return _UserIterable(members)
+    if how == "dict_keys":
+        try:
+            d = {m: None for m in members}
+        except TypeError:
+            return members
+        return d.keys() if len(d) == len(members) else members
+    return members
+
+
 def _worklist(dev):
     import robotools
 
@@ -259,6 +292,10 @@ def _run_ad(ctx, case):
         tip_arg = iter(members_) if case["oneshot"] == "iter" else (m for m in members_)
     else:
         tip_arg = tip
+    if case.get("wrap") and isinstance(tip, list):
+        tip_arg = _wrap(tip, case["wrap"])
+        if tip_arg is not tip:
+            ctx.count("tip_collection_in_container:" + case["wrap"])
     ctx.case(case, coll and len(tip) >= 2)
     ctx.count(f"ep:{ep}:{dev}")
     ctx.feature("selection_form", type(tip).__name__ if coll else "bare")
@@ -370,7 +407,11 @@ def _run_evo(ctx, case):
     exc = None
     try:
         if ep == "evo_wash":
-            wl.evo_wash(tips=tips, waste_location=(52, 2), cleaner_location=(52, 1))
+            t_arg = tips
+            if case.get("oneshot"):
+                ctx.count("evo_wash_tips_as_one_shot_iterable")
+                t_arg = iter(list(members)) if case["oneshot"] == "iter" else (m for m in list(members))
+            wl.evo_wash(tips=t_arg, waste_location=(52, 2), cleaner_location=(52, 1))
         else:
             plate = robotools.Labware("p", 8, 12, min_volume=0, max_volume=1e9, initial_volumes=1e6)
             wells = [well_id(r, int(case.get("col", 0))) for r in range(k)]
@@ -403,7 +444,9 @@ def _run_evo(ctx, case):
             ctx.check("nothing_appended_on_reject", len(records) == 0, det)
         return
     if exc is not None:
-        if distinct:
+        if case.get("oneshot"):
+            ctx.count("one_shot_iterable_refused")  # a refusal is fine, a silently different command is not
+        elif distinct:
             ctx.check("no_exception_on_valid_tip", False, det)
         else:
             ctx.count("evo_repeated_tips_refused")
